@@ -173,6 +173,7 @@ func parseTable(tok string) map[string]string {
 
 // caseLine assembles a case; the oracle table covers every string of the tree and of the environment.
 var defaultStrings []string
+var theReg *s.Reg
 
 func caseLine(head []string, mut string, p s.Path, ce caseEnv, tree *s.V) string {
 	set := map[string]bool{}
@@ -294,6 +295,15 @@ func bounded(f func() string) string {
 	}
 }
 
+// the text a placeholder resolves to may be a file name: it exists like every written string
+func touchLiteral(mut string) {
+	if strings.HasPrefix(mut, "ph:") {
+		if lit, err := s.ParseToken(mut[3:]); err == nil {
+			touchFiles(lit)
+		}
+	}
+}
+
 func decodeFull(tree *s.V) string { return bounded(func() string { return decodeFull0(tree) }) }
 
 func decodeFull0(tree *s.V) (res string) {
@@ -410,6 +420,7 @@ func run(cases []string) []string {
 			}
 			undo := setupEnv(f[4], f[5])
 			touchFiles(tree)
+			touchLiteral(f[1])
 			res = decodeFull(tree)
 			undo()
 		case f[0] == "comp" && len(f) == 9:
@@ -420,6 +431,7 @@ func run(cases []string) []string {
 			}
 			undo := setupEnv(f[6], f[7])
 			touchFiles(tree)
+			touchLiteral(f[3])
 			res = decodeComp(reg, string(vh.UnHex(f[1])), string(vh.UnHex(f[2])), tree)
 			undo()
 		case f[0] == "cli" && len(f) == 7:
@@ -636,8 +648,18 @@ func wrongTyped(n *s.Node) []*s.V {
 	return nil
 }
 
-func outOfRange(n *s.Node, validate string) []*s.V {
-	var out []*s.V
+// rangeVal: a value from the boundary families of a validate tag; valid = inside the constraint (boundary itself)
+type rangeVal struct {
+	v     *s.V
+	valid bool
+}
+
+// outOfRange enumerates, from the grammar of each validate tag of the field, the boundary families: the boundary
+// itself, boundary -/+ 1, and for endpoint the product host kind x port kind, missing/extra colons, IPv6 literals.
+func outOfRange(n *s.Node, validate string) []rangeVal {
+	var out []rangeVal
+	bad := func(v *s.V) { out = append(out, rangeVal{v, false}) }
+	good := func(v *s.V) { out = append(out, rangeVal{v, true}) }
 	for _, t := range strings.Split(validate, ",") {
 		name, param := t, ""
 		if i := strings.Index(t, "="); i >= 0 {
@@ -647,33 +669,68 @@ func outOfRange(n *s.Node, validate string) []*s.V {
 		case "min":
 			m, _ := strconv.ParseInt(param, 10, 64)
 			if n.Scalar == "float" {
-				out = append(out, s.Float(2*m-1, 2))
+				bad(s.Float(2*m-1, 2))
+				good(s.Float(2*m+1, 2))
 			}
 			if n.Scalar != "uint" || m > 0 {
-				out = append(out, s.Int(m-1))
+				bad(s.Int(m - 1))
 			}
+			good(s.Int(m))
+			good(s.Int(m + 1))
 		case "max":
 			m, _ := strconv.ParseInt(param, 10, 64)
-			out = append(out, s.Int(m+1))
+			bad(s.Int(m + 1))
+			good(s.Int(m))
 		case "min-time":
-			out = append(out, s.Str("1ns"), s.Int(0))
+			d, _ := time.ParseDuration(param)
+			bad(s.Str("1ns"))
+			bad(s.Int(0))
+			bad(s.Int(int64(d) - 1))
+			good(s.Int(int64(d)))
+			good(s.Str(param))
 		case "max-time":
-			out = append(out, s.Str("10000h"))
+			bad(s.Str("10000h"))
+			good(s.Str(param))
 		case "min-size":
-			out = append(out, s.Int(0))
+			bad(s.Int(0))
 		case "required":
 			switch n.Scalar {
 			case "string":
-				out = append(out, s.Str(""))
+				bad(s.Str(""))
 			case "int", "uint":
-				out = append(out, s.Int(0))
+				bad(s.Int(0))
 			case "bool":
-				out = append(out, s.Bool(false))
+				bad(s.Bool(false))
 			}
 		case "endpoint":
-			out = append(out, s.Str("no-port-here"), s.Str("host:notaport"))
+			hosts := []struct {
+				h  string
+				ok bool
+			}{{"", true}, {"localhost", true}, {"127.0.0.1", true}, {"ex-ample.org.", true}, {"bad host", false}, {"-dash.first", false}, {"a..b", false}, {"ex!ample", false}}
+			ports := []struct {
+				p  string
+				ok bool
+			}{{"80", true}, {"1", true}, {"65535", true}, {"+8080", true}, {"0", false}, {"65536", false}, {"70000", false}, {"-1", false}, {"http", false}, {"", false}, {"8o", false}, {"99999999999999999999", false}}
+			for _, h := range hosts {
+				for _, p := range ports {
+					v := s.Str(h.h + ":" + p.p)
+					if h.ok && p.ok {
+						good(v)
+					} else {
+						bad(v)
+					}
+				}
+			}
+			bad(s.Str("no-port-here"))
+			bad(s.Str(""))
+			bad(s.Str("a:b:80"))
+			bad(s.Str("::1:80"))
+			good(s.Str("[::1]:80"))
+			bad(s.Str("[::1]:0"))
+			bad(s.Str("[::1]"))
+			bad(s.Str("[not-an-ip]:80"))
 		case "url-path":
-			out = append(out, s.Str("no leading slash"))
+			bad(s.Str("no leading slash"))
 		}
 	}
 	return out
@@ -772,7 +829,10 @@ func mutate(e emitter, reg *s.Reg, rootNode *s.Node, base *s.V, prefix s.Path, l
 		}
 		if n.Kind == "scalar" {
 			for _, w := range outOfRange(n, st.Validate) {
-				e.emit("rng", st.Path, none, base.ReplaceAt(st.Path, w))
+				if w.valid && e.head[0] == "full" {
+					continue // a different valid value may change what the constructor does (DNS pre-resolve): comp cases only
+				}
+				e.emit("rng", st.Path, none, base.ReplaceAt(st.Path, w.v))
 			}
 			lits := phLiterals(n)
 			if n.Scalar == "string" && node.K == 's' {
@@ -802,6 +862,33 @@ func mutate(e emitter, reg *s.Reg, rootNode *s.Node, base *s.V, prefix s.Path, l
 				ce := caseEnv{env: map[string]string{envVar: x[1 : len(x)-1]}}
 				e.emit("ph:"+s.Str(x).Token(), st.Path, ce, base.ReplaceAt(st.Path, s.Str(x[:1]+"${"+envVar+"}"+x[len(x)-1:])))
 			}
+			if n.Scalar == "string" && node.K == 's' && len(node.S) >= 3 && !strings.Contains(node.S, "$") {
+				// several placeholders in one value: adjacent, with literal text between, env mixed with property,
+				// the same placeholder twice, three in a row
+				x := node.S
+				a, mid, z := x[:1], x[1:len(x)-1], x[len(x)-1:]
+				pA, pB, pP := "${env:"+envVar+"}", "${env:"+envVar+"_B}", "${property:"+propFile+"#"+propKey+"}"
+				multi := []struct {
+					text string
+					lit  string
+					ce   caseEnv
+				}{
+					{pA + mid + pB, x, caseEnv{env: map[string]string{envVar: a, envVar + "_B": z}}},
+					{pA + pB, a + mid + z, caseEnv{env: map[string]string{envVar: a, envVar + "_B": mid + z}}},
+					{pA + mid + pP, x, caseEnv{env: map[string]string{envVar: a}, props: map[string]string{propFile + "#" + propKey: z}}},
+					{pP + mid + pA, x, caseEnv{env: map[string]string{envVar: z}, props: map[string]string{propFile + "#" + propKey: a}}},
+					{pA + mid + pA, a + mid + a, caseEnv{env: map[string]string{envVar: a}}},
+					{pA + pP + pB, a + mid + z, caseEnv{env: map[string]string{envVar: a, envVar + "_B": z}, props: map[string]string{propFile + "#" + propKey: mid}}},
+				}
+				for _, m := range multi {
+					if !literalConstructs(e, base.ReplaceAt(st.Path, s.Str(m.lit))) {
+						continue
+					}
+					e.emit("ph:"+s.Str(m.lit).Token(), st.Path, m.ce, base.ReplaceAt(st.Path, s.Str(m.text)))
+				}
+				// one of two placeholders cannot be resolved
+				e.emit("phe", st.Path, caseEnv{env: map[string]string{envVar: a}}, base.ReplaceAt(st.Path, s.Str(pA+mid+"${env:"+envUnset+"}")))
+			}
 			e.emit("phe", st.Path, none, base.ReplaceAt(st.Path, s.Str("${env:"+envUnset+"}")))
 			e.emit("phe", st.Path, caseEnv{props: map[string]string{propFile + "#other": "1"}}, base.ReplaceAt(st.Path, s.Str("${property:"+propFile+"#"+propKey+"}")))
 			// a missing property whose name is a proper prefix of existing keys
@@ -819,10 +906,14 @@ func mutate(e emitter, reg *s.Reg, rootNode *s.Node, base *s.V, prefix s.Path, l
 // constructors are not modelled: a placeholder case is kept only when the configuration with the literal
 // value in its place is accepted by the real decoder and yields its products (e.g. an http2 gun refuses ssl: false)
 func literalConstructs(e emitter, lit *s.V) bool {
+	touchFiles(lit)
+	if e.head[0] == "comp" {
+		// nested plugins of a component config are constructed too (a middleware refuses an unknown time zone)
+		return strings.HasPrefix(decodeComp(theReg, string(vh.UnHex(e.head[1])), string(vh.UnHex(e.head[2])), lit), "ok")
+	}
 	if e.head[0] != "full" {
 		return true
 	}
-	touchFiles(lit)
 	r := decodeFull(lit)
 	if !strings.HasPrefix(r, "ok") {
 		return false
@@ -879,6 +970,7 @@ func gen(r *vh.Rand, tier string) []string {
 	s.Import()
 	prepareFs()
 	reg := s.NewReg()
+	theReg = reg
 	defaultStrings = reg.DefaultStrings()
 	dir, _ := os.MkdirTemp("", "a16-hC17-gen-")
 	old, _ := os.Getwd()
